@@ -172,3 +172,47 @@ Definition stmt_assemble_refines_spec_triu_partial : Prop :=
     K = encode (kkt_matrix O P A shapes Triu)
     /\ mP mp = mP sp /\ mA mp = mA sp /\ mHs mp = mHs sp /\ mSp mp = mSp sp.
 
+
+(** ** assemble_refines_spec, Triu, from the well-formedness of the inputs alone: the model of
+    [assemble_kkt_matrix] run on the raw encodings of a canonical upper-triangular P (any diagonal
+    pattern), a canonical A and a shape list summing to m returns exactly the intended matrix and
+    ALL intended maps (P, A, Hsblocks, sparse expansion maps, diagP, diag_full). *)
+Definition stmt_assemble_refines_spec_triu : Prop :=
+  forall T (O : Ops T) (P A : @csc T) (shapes : list shape), wf_input P A shapes ->
+    assemble O (encode P) (encode A) shapes Triu
+    = (encode (kkt_matrix O P A shapes Triu), kkt_maps P A shapes Triu).
+
+(** every position of the intended matrix is stored at most once (with [diag_complete]: every
+    diagonal position exactly once) *)
+Definition stmt_positions_unique : Prop :=
+  forall T (P A : @csc T) (shapes : list shape) (tri : triangle), wf_input P A shapes ->
+    forall e e', In e (entries P A shapes tri) -> In e' (entries P A shapes tri) ->
+      erow e = erow e' -> ecol e = ecol e' -> e = e'.
+
+(** the diagonal maps of the Triu layout point at the diagonal entries, each of which is the last
+    stored entry of its column (so colptr[j+1] - 1 is its slot) *)
+Definition stmt_diag_maps_triu : Prop :=
+  forall T (O : Ops T) (P A : @csc T) (shapes : list shape), wf_input P A shapes ->
+    let N := kdim P A shapes in
+    let se := sorted_entries N (entries P A shapes Triu) in
+    let mp := kkt_maps P A shapes Triu in
+    length (mDiagFull mp) = N /\ mDiagP mp = firstn (nc P) (mDiagFull mp) /\
+    forall j, j < N ->
+      let q := nth j (mDiagFull mp) 0 in
+      q < length se
+      /\ erow (nth q se (0, 0, TP 0)) = j /\ ecol (nth q se (0, 0, TP 0)) = j
+      /\ S q = nth (S j) (rcolptr (encode (kkt_matrix O P A shapes Triu))) 0.
+
+(** ** assemble_refines_spec, Tril (the model's other code path: missing diagonal first, P
+    transposed, A as is, dense blocks row by row, expansion vectors as rows), and both triangles *)
+Definition stmt_assemble_refines_spec_tril : Prop :=
+  forall T (O : Ops T) (P A : @csc T) (shapes : list shape), wf_input P A shapes ->
+    assemble O (encode P) (encode A) shapes Tril
+    = (encode (kkt_matrix O P A shapes Tril), kkt_maps P A shapes Tril).
+
+
+(** THE C11 refinement theorem: for both triangles *)
+Definition stmt_assemble_refines_spec : Prop :=
+  forall T (O : Ops T) (P A : @csc T) (shapes : list shape) (tri : triangle), wf_input P A shapes ->
+    assemble O (encode P) (encode A) shapes tri
+    = (encode (kkt_matrix O P A shapes tri), kkt_maps P A shapes tri).
